@@ -165,7 +165,12 @@ class MergerCheck(Check):
             "operations threading the index list on ndarray and csr_array in lock-step, with message faults on the "
             "join/delete lists (duplicates, overlaps, reversed pairs, stale merged/deleted members, bridges through "
             "existing groups, permuted/duplicated re-delivery, step-wise vs one-shot branches); or one "
-            "SQRA.cut_and_merge scenario (all four limit combinations). A run is non-trivial if >=2 operations changed "
+            "SQRA.cut_and_merge scenario (all four limit combinations; 4-120 cells, sometimes 1010-1600 with a long plateau, "
+            "sometimes production size 20000-80000 cells judged with sparse algebra; a second call on the same object at "
+            "another temperature). Further dimensions of the swarm: magnitudes 2^-40..2^50, float64/int64, dense memory "
+            "layout (C / Fortran / transposed view), the caller's container types (list, tuple, set, frozenset, array), "
+            "histories of up to 24 operations, one chain of >=1000 neighbouring pairs on a 1010-1300 cell matrix, and runs "
+            "in which 2-5 independent histories are advanced in an interleaved order inside one process. A run is non-trivial if >=2 operations changed "
             "the partition or >=1 message fault fired, and >=1 oracle was evaluated; distinct = distinct hash of "
             "(matrix kind, n bucket, sequence of (op kind, fault kinds, #groups after)).")
     components = {"real": ["molgri.molecules.rate_merger.merge_matrix_cells", "delete_rate_cells", "merge_sublists",
